@@ -249,12 +249,16 @@ def execute(chunk):
                 mx = drv.ask({'op': 'coerce', 'role': 'X', 'container': xrep[0], 'dtype': xrep[1], 'shape': 'mat', **base})
                 my = drv.ask({'op': 'coerce', 'role': 'yfc' if fc else 'y', 'container': yrep[0], 'dtype': yrep[1], 'shape': yrep[2],
                               'logical': logical, 'mode': p['mode'], **base})
-                if 'error' in mx or 'error' in my:
+                model_ok = not ('error' in mx or 'error' in my)
+                if not model_ok:
+                    # model unavailable: recorded; the property oracle (same predictions as the reference) still runs
                     res['disagreements'].append({'detail': f'{tag}: model rejects the descriptor: {mx} {my}'})
-                    continue
-                if not outside and not (mx['documented'] and my['documented'] and mx['canonical'] and my['canonical']):
+                    mx, my = {'canon': None, 'documented': True, 'canonical': True}, {'canon': None, 'documented': True, 'canonical': True}
+                if model_ok and not outside and not (mx['documented'] and my['documented'] and mx['canonical'] and my['canonical']):
                     res['disagreements'].append({'detail': f'{tag}: harness lists the representation as documented, model says {mx} {my}'})
-                if my['canon'] is None:
+                if not model_ok:
+                    pass
+                elif my['canon'] is None:
                     if got['records']:
                         res['disagreements'].append({'detail': f'{tag}: model says no leaf is reached, but {len(got["records"])} leaf fits were recorded'})
                 else:
